@@ -77,7 +77,7 @@ def main():
         rc, out = sh('go build -tags verif ./... && go test -vet=off -count=1 ./gameboy/cpu/... ./gameboy/timer/...', cwd=WT)
         rec['builds_and_existing_tests_pass'] = rc == 0
         demo_dest, demo_cmd = meta.get('demo_dest'), meta.get('demo_cmd')
-        demo_cmd = demo_cmd.replace(f'/tmp/wt7/{pid}', WT).replace(f'/tmp/wt6/{pid}', WT).replace(f'/tmp/wt5/{pid}', WT).replace(f'/tmp/wt4/{pid}', WT).replace(f'/tmp/wt/{pid}', WT).replace('<checkout>', WT)  # the sub-agent's own worktree path
+        demo_cmd = demo_cmd.replace(f'/tmp/wt8/{pid}', WT).replace(f'/tmp/wt7/{pid}', WT).replace(f'/tmp/wt6/{pid}', WT).replace(f'/tmp/wt5/{pid}', WT).replace(f'/tmp/wt4/{pid}', WT).replace(f'/tmp/wt/{pid}', WT).replace('<checkout>', WT)  # the sub-agent's own worktree path
         shutil.copy(f'{d}/demo_test.go', f'{WT}/{demo_dest}')
         rc1, o1 = sh(demo_cmd, cwd=WT)
         rec['demo_fails_with_change'] = rc1 != 0
